@@ -26,13 +26,20 @@ ASSUMPTIONS = [
     "domain of the theorems: strictly increasing publication times, per-key non-decreasing requests by registered keys",
 ]
 
-KINDS = ["direct", "scale", "next", "linear", "avg"]
+# "shared": consumers behind ONE shared pass-through adapter that fans out (Out >> Scale >> (In_a, In_b, ...)):
+# one direct target of the output, several registered consumers
+KINDS = ["direct", "scale", "next", "linear", "avg", "shared"]
 GAPS = [1, 2, 3, 5, 7, 1000, 999999, 1000000, 3600 * 10**6, 86400 * 10**6, 86400 * 10**6 + 1]
 
 
 def _gen_case(rng, malformed):
     nc = rng.choice([1, 1, 2, 2, 2, 3, 3, 4])
     consumers = [rng.choice(KINDS if rng.random() < 0.5 else ["direct", "scale"]) for _ in range(nc)]
+    if nc >= 2 and rng.random() < 0.25:
+        # all (or all but one) consumers behind one shared pass-through adapter
+        consumers = ["shared"] * nc
+        if rng.random() < 0.4:
+            consumers[rng.randrange(nc)] = rng.choice(["direct", "next"])
     gaps = rng.sample(GAPS, rng.choice([1, 2, 3]))
     nops = rng.randint(4, 40)
     ops = []
@@ -86,6 +93,9 @@ CORPUS = [
     # exact midpoint and odd microsecond gaps (finding F8, fixed)
     {"consumers": ["direct"], "ops": [["push", 0], ["push", 5], ["pull", 0, 2], ["pull", 0, 3], ["push", 10], ["pull", 0, 7], ["pull", 0, 8]]},
     {"consumers": ["direct", "next"], "ops": [["push", 0], ["push", 4], ["pull", 0, 2], ["pull", 1, 4], ["push", 9], ["pull", 0, 9]]},
+    # two consumers with different paces behind one shared pass-through adapter
+    {"consumers": ["shared", "shared"],
+     "ops": [["push", d] for d in range(0, 7)] + [["pull", 0, 3], ["pull", 1, 1], ["pull", 1, 2], ["pull", 0, 6], ["pull", 1, 3], ["pull", 1, 6]]},
 ]
 
 
@@ -102,11 +112,18 @@ def run_impl(case):
     info = fm.Info(time=t0, grid=fm.NoGrid())
     out = fm.Output(name="Out")
     inputs, adapters = [], []
+    shared = None
     for i, kind in enumerate(case["consumers"]):
         inp = fm.Input(name=f"In{i}")
         if kind == "direct":
             out >> inp
             ada = None
+        elif kind == "shared":
+            if shared is None:
+                shared = fm.adapters.Scale(1.0)
+                out >> shared
+            shared >> inp
+            ada = shared
         else:
             ada = {"scale": lambda: fm.adapters.Scale(1.0), "next": fm.adapters.NextTime,
                    "linear": fm.adapters.LinearTime, "avg": fm.adapters.AvgOverTime}[kind]()
